@@ -52,7 +52,7 @@ func init() {
 		MinNontrivial: 500,
 		Phases: []fw.Phase{
 			{Name: "robust", N: func(t fw.Tier) int { return pick(t, 60000, 2000000) }, Run: c10Run},
-			{Name: "robust-race", Race: true, N: func(t fw.Tier) int { return pick(t, 0, 20000) }, Run: c10Run},
+			{Name: "robust-race", Race: true, RaceInfoOnly: true, N: func(t fw.Tier) int { return pick(t, 0, 20000) }, Run: c10Run},
 		},
 		Witness: c10Witness,
 	})
